@@ -211,7 +211,7 @@ func TestC18(t *testing.T) {
 	if r.Violations() > 0 {
 		return
 	}
-	r.Rapid("pair", kit.Pick(600, 50000), func(rt *rapid.T) {
+	r.Rapid("pair", kit.Pick(5000, 100000), func(rt *rapid.T) {
 		vc, ok := genC10Case(rt)
 		if !ok || vc.Class == "two-schema-faults" {
 			rt.Skip("no case")
